@@ -156,3 +156,54 @@ fn native_gamedata_lookup() {
     }
     println!("NATIVE native_gamedata_lookup cases={cases}");
 }
+
+//@unit props=C18 label=B tier=quick native=1 fn=gamedata::GameData::{from_existing,exists,find_offset,extract},repository::Repository::from_existing_expansion,sqpack::index::SqPackIndex::from_existing bound="by execution on temporary installations: stray directories and files under sqpack/ (names of 1, 2 and 3 bytes, non-ASCII, 'exx', a file called ex1), missing version files, missing sqpack directory, missing index and dat files; a 3-entry .index and .index2: every truncation and 7 single-byte corruptions per byte of the SqPack header start, the four segment descriptors' count/offset/size words, the index type and the entry table"
+//@desc damaged installations (stray directories, missing files, truncated or corrupted index files, index entries pointing at missing dat files) make opening and every query return a failure or a value, never a panic
+#[test]
+fn native_gamedata_damaged_nopanic() {
+    let root = std::env::temp_dir().join(format!("physis-verif-c18g-{}", std::process::id()));
+    let _ = std::fs::remove_dir_all(&root);
+    let game = root.join("game");
+    std::fs::create_dir_all(game.join("sqpack/ffxiv")).unwrap();
+    let ents: Vec<(String, u8, u64)> = vec![("exd/root.exl".to_string(), 0, 0x80), ("exd/dir/a.exh".to_string(), 1, 0x100), ("exd/dir/b.exd".to_string(), 7, 0x1_0000_0000)];
+    let gs = game.to_str().unwrap().to_string();
+    let mut s = NativeSites::new();
+    // stray entries under sqpack/
+    for stray in ["a", "ab", "abc", "exx", "é", "日本", "ex", "ex1x", ".hidden"] { std::fs::create_dir_all(game.join("sqpack").join(stray)).unwrap(); }
+    std::fs::write(game.join("sqpack/ex3"), b"a file, not a directory").unwrap();
+    std::fs::create_dir_all(game.join("sqpack/ex2")).unwrap(); // expansion without a version file
+    let query = { let gs = gs.clone(); move |_: &[u8]| {
+        if let Some(mut gd) = GameData::from_existing(Platform::Win32, &gs) {
+            let _ = gd.exists("exd/root.exl"); let _ = gd.extract("exd/dir/a.exh"); let _ = gd.find_offset("EXD/DIR/B.EXD"); let _ = gd.exists("bg/ex9/zone/a.lgb");
+        }
+    } };
+    let wide = { let gs = gs.clone(); move |_: &[u8]| {
+        if let Some(mut gd) = GameData::from_existing(Platform::Win32, &gs) {
+            for p in ["exd/root.exl", "exd/dir/a.exh", "EXD/DIR/B.EXD", "bg/ex2/zone/a.lgb", "bg/ex9/zone/a.lgb", "music/a.scd", "nocategory/x/y", "exd/", "/", "exd/dir/"] {
+                let _ = gd.exists(p); let _ = gd.find_offset(p); let _ = gd.extract(p);
+            }
+        }
+    } };
+    s.run(&wide, b"", "stray directories, no index files at all, ten kinds of path");
+    s.run(&query, b"", "stray directories, no index files at all");
+    assert!(GameData::from_existing(Platform::Win32, root.join("nowhere").to_str().unwrap()).is_none(), "a missing game directory is an ordinary failure");
+    for (kind, name) in [(0u32, "0a0000.win32.index"), (1u32, "0a0000.win32.index2")] {
+        let v = ngd_index(kind, &ents);
+        let target = game.join("sqpack/ffxiv").join(name);
+        let (t2, q2) = (target.clone(), query.clone());
+        let f = move |b: &[u8]| { std::fs::write(&t2, b).unwrap(); q2(b); };
+        // the dat files the entries point at do not exist: extract must fail gracefully
+        s.run(&f, &v, "well-formed index, missing dat files");
+        let pick: Vec<usize> = (0..v.len()).filter(|i| *i < 40 || (1024..1048).contains(i) || (1100..1116).contains(i) || (1244..1264).contains(i) || (1316..1328).contains(i) || *i >= 2044).collect();
+        for t in pick.iter() { s.run(&f, &v[..*t], &format!("{name} truncated to {t} bytes")); }
+        let mut w = v.clone();
+        for i in pick.iter() {
+            let o = v[*i];
+            for c in [0u8, 1, 0x7F, 0x80, 0xFF, o.wrapping_add(1), o.wrapping_sub(1)] { if c != o { w[*i] = c; s.run(&f, &w, &format!("{name} byte {i} changed from {o:#04x} to {c:#04x}")); } }
+            w[*i] = o;
+        }
+        let _ = std::fs::remove_file(&target);
+    }
+    let _ = std::fs::remove_dir_all(&root);
+    s.finish("native_gamedata_damaged_nopanic");
+}
